@@ -121,11 +121,19 @@ func VerifC06Recurse() {
 	}
 	x, y := vF64(), vF64()
 	vAssume(x != y)
-	switch vChoice(3) {
+	switch vChoice(3 + 4*vParam("EMPTIES", 0)) {
 	case 0:
 		a[p], b[p] = jsonObject{"k": jsonNumber(x)}, jsonObject{"k": jsonNumber(y)}
 	case 1:
 		a[p], b[p] = jsonArray{jsonNumber(x)}, jsonArray{jsonNumber(y)}
+	case 3: // a container that is emptied / filled
+		a[p], b[p] = jsonArray{jsonNumber(x), jsonNumber(y)}, jsonArray{}
+	case 4:
+		a[p], b[p] = jsonArray{}, jsonArray{jsonNumber(x)}
+	case 5:
+		a[p], b[p] = jsonObject{"k": jsonNumber(x)}, jsonObject{}
+	case 6:
+		a[p], b[p] = jsonObject{}, jsonObject{"k": jsonNumber(x)}
 	default:
 		a[p], b[p] = jsonObject{"k": jsonNumber(x)}, jsonObject{"j": jsonNumber(y)}
 	}
